@@ -542,6 +542,11 @@ class Interp:
         return None
 
     def based_op(self, op, a, b, tw, ts):
+        if isinstance(a, AV) and isinstance(b, Based):
+            # the same operation written the other way round
+            sw = {"+": "+", "&": "&", "==": "==", "!=": "!=", "<": ">", ">": "<", "<=": ">=", ">=": "<="}
+            if op in sw:
+                return self.based_op(sw[op], b, a, tw, ts)
         if isinstance(a, Based) and isinstance(b, AV):
             c = b.const()
             if op == "+":
